@@ -179,7 +179,7 @@ def run(ctx):
                 f = P.c05_solution(o)
                 if f:
                     viol("solve -e %s examples/%s.inkfem wrote a solution that does not meet that error: %s" % (e, ex, f[0]), {"args": ["solve", "-e", e, "examples/%s.inkfem" % ex]})
-    for s in structs:
+    for s in structs + [G.convert_units(structs[0], 10, Fr(1, 10 ** 6))]:     # the last one in MN / mm: densities below 1e-10
         text = s.text()
         w = s.copy()
         for b in s.bars:
